@@ -158,6 +158,9 @@ def file_type(d):
     return "positive"
 
 
+_META_ROT = [0]
+
+
 def make_meta(abstract_keys, tag):
     """A caller-owned metadata dict with the given abstract keys (values of every loadable kind)."""
     d = {}
@@ -165,12 +168,16 @@ def make_meta(abstract_keys, tag):
         d.update({"epoch": 3 + tag, "note": "run %d / plain text" % tag, "lr": 0.125 * (tag + 1),
                   "nested": {"a": [1, 2.5, {"b": "c", "t": torch.tensor([1.0, -2.0]) * (tag + 1)}], "z": []},
                   "tensor": (torch.arange(6, dtype=torch.double).reshape(2, 3) - tag) / 7.0})
+    # a reserved NAME is refused whatever value the caller stored under it (falsy values included)
+    _META_ROT[0] += 1
+    r = _META_ROT[0]
+    vals = ["not a network", 7, None, 0, False, "", {}, [], 0.0, torch.zeros(1), torch.tensor([1.0, 2.0])]
     if "rbm_am" in abstract_keys:
-        d["rbm_am"] = "not a network"
+        d["rbm_am"] = vals[r % len(vals)]
     if "rbm_ph" in abstract_keys:
-        d["rbm_ph"] = 7
+        d["rbm_ph"] = vals[(r + 3) % len(vals)]
     if "unitary_dict" in abstract_keys:
-        d["unitary_dict"] = {"mine": [1, 2]}
+        d["unitary_dict"] = ([{"mine": [1, 2]}] + vals[2:9])[r % 8]
     return d
 
 
